@@ -130,9 +130,9 @@ def generate(ctx):
         if ctx.mine(idx):
             yield {"k": "place", "pattern": pat, "fam": "AB"[idx % 2], "s": subseed("c16", "place", idx)}
         idx += 1
-    for i in range(ctx.scale(140, 1600)):
+    for i in range(ctx.scale(200, 1600)):
         yield {"k": "rand", "fam": "AB"[i % 2], "s": subseed("c16", ctx.seed, "rand", ctx.shard, i)}
-    for i in range(ctx.scale(18, 180)):
+    for i in range(ctx.scale(27, 180)):
         mode = SUB_MODE_CYCLE[i % len(SUB_MODE_CYCLE)]
         fam = "A" if mode in ("csv", "line", "line-verbose", "text") else ("B" if mode in ("json", "jsonlines", "list") else "AB"[(i // len(SUB_MODES)) % 2])
         yield {"k": "sub", "fam": fam, "mode": mode, "s": subseed("c16", ctx.seed, "sub", ctx.shard, i)}
